@@ -253,11 +253,19 @@ def coq_deps(vfile):
         if f in seen or not os.path.exists(f):
             continue
         seen.add(f)
-        rc, out = sh(["coqdep", "-f", "_CoqProject", os.path.relpath(f, COQ)], cwd=COQ, timeout=120)
-        for m in re.finditer(r"(\S+)\.vo\b", out.split(":", 1)[1] if ":" in out else ""):
-            cand = os.path.join(COQ, m.group(1) + ".v")
-            if os.path.exists(cand) and cand not in seen:
-                todo.append(cand)
+        rel = os.path.relpath(f, COQ)
+        rc, out = sh(["coqdep", "-Q", ".", "Elk", rel], cwd=COQ, timeout=120)
+        own = rel[:-2] + ".vo"
+        for line in out.splitlines():
+            if ":" not in line:
+                continue
+            lhs, rhs = line.split(":", 1)
+            if own not in lhs.split():
+                continue
+            for m in re.finditer(r"(\S+)\.vo\b", rhs):
+                cand = os.path.normpath(os.path.join(COQ, m.group(1) + ".v"))
+                if os.path.exists(cand) and cand not in seen:
+                    todo.append(cand)
     return sorted(seen)
 
 
@@ -675,3 +683,35 @@ def value_stream(ctx, stream, harness_exe, model_exe, n, keyfn, rule, corpus=Non
     ctx.stream(stream, len(ids), len(distinct), rule,
                [{"input": inputs[i], "observed": obs[i]} for i in ids[:2] + ids[-2:]], dist, mismatches=mism)
     return ids, inputs, obs, exp
+
+
+# ---- added for C06/C08: dependency-exact variants (coq_deps above lists the whole project,
+# so build_model would rebuild - and fail on - unrelated properties' files)
+
+def coq_deps_exact(vfile):
+    """transitive project-local dependencies of ONE .v file (coqdep without -f)"""
+    seen = set()
+    todo = [vfile]
+    while todo:
+        f = todo.pop()
+        if f in seen or not os.path.exists(f):
+            continue
+        seen.add(f)
+        rc, out = sh(["coqdep", "-Q", ".", "Elk", os.path.relpath(f, COQ)], cwd=COQ, timeout=120)
+        first = out.splitlines()[0] if out.splitlines() else ""
+        for m in re.finditer(r"(\S+)\.vo\b", first.split(":", 1)[1] if ":" in first else ""):
+            cand = os.path.join(COQ, m.group(1) + ".v")
+            if os.path.exists(cand) and cand not in seen:
+                todo.append(cand)
+    return sorted(seen)
+
+
+def build_model_exact(pid):
+    """build_model restricted to the real dependencies of ExtractRun/<pid>.v"""
+    global coq_deps
+    saved = coq_deps
+    coq_deps = coq_deps_exact
+    try:
+        return build_model(pid)
+    finally:
+        coq_deps = saved
